@@ -324,8 +324,17 @@ func checkParseOutcome(a asserter, simp func(*gosym.Term) *gosym.Term, ref *spec
 			ok, _ := ref.derive(out.Log, terms)
 			a.Assert(B(ok), "C01: reduction log is not a rightmost derivation of the input"+tag)
 		}
+		if mode&modeError != 0 {
+			a.Assert(B(sawEOF), "C06: a result was returned before the end of input was seen"+tag)
+			if mode&modeLALR != 0 {
+				_, acc := ref.earley(terms)
+				a.Assert(B(sawEOF && acc), "C06: a non-sentence was accepted and a result returned"+tag)
+			}
+		}
 		if mode&modeValue != 0 {
-			if ok, nodes := ref.derive(out.Log, terms); ok {
+			ok, nodes := ref.derive(out.Log, terms)
+			a.Assert(B(ok), "C07: the actions that ran are not the actions of the parse tree of the input (an action was skipped, repeated or misplaced)"+tag)
+			if ok {
 				a.Cover("value")
 				a.Assert(B(out.ValKnown), "C07: the parser's value is not a number"+tag)
 				if out.ValKnown {
